@@ -1,51 +1,113 @@
-"""Wire part of C02: request shapes / id echo / batches on the ndjson transport (spec/WireDefs.tla)."""
-import json, os
+"""Wire part shared by C01/C02/C03 on the ndjson transport (spec/WireDefs.tla): request shapes / id echo / batches incl. the
+timing of id re-use (C02), in-order handling of batch members (C03), reply framings of the SDK's own calls (C01)."""
+import json, os, random
 import vlib
 
 
 def sig_of(clause, e):
     c = e["c"]
     if c["t"] == "httpbatch":
-        return "httpbatch[%s]%s:%s:status=%s,answered=%s" % (",".join(c["members"]), "/json" if c.get("json") else "", clause, e.get("status"), e.get("answered"))
+        return "httpbatch[%s]%s:%s:status=%s,answered=%s%s" % (",".join(c["members"]), "/json" if c.get("json") else "", clause, e.get("status"), e.get("answered"), ",post-hangs" if e.get("hung") else "")
     if c["t"] == "httpshape":
-        return "httpshape=%s,%s,%s%s:%s:status=%s,count=%d,code=%d" % (c["method"], c["idc"] if c["hasId"] else "noid", c["params"], "/json" if c.get("json") else "", clause, e.get("status"), e["count"], e["code"])
+        return "httpshape=%s,%s,%s%s:%s:status=%s,count=%d,code=%d%s" % (c["method"], c["idc"] if c["hasId"] else "noid", c["params"], "/json" if c.get("json") else "", clause, e.get("status"), e["count"], e["code"], ",post-hangs" if e.get("hung") else "")
+    if c["t"] == "framing":
+        fr = "+".join(("[%s]" % ",".join(f["items"])) if f["arr"] else f["items"][0] for f in c["frames"])
+        what = clause
+        if clause == "CompletesAnyFraming":
+            what = "blocked=" + ",".join(str(i + 1) for i, x in enumerate(e["outcome"]) if x == "blocked")
+        elif clause == "OwnResponseAnyFraming":
+            what = "not-own=" + ",".join("%d:%s" % (i + 1, x) for i, x in enumerate(e["outcome"]) if x not in ("own", "blocked"))
+        elif clause == "FramedCallAnswered":
+            what = "peer-call-answers=%d,other=%d" % (e["qAnswers"], e["qOther"])
+        return "framing:%s:%d:%s:%s" % (c["side"], c["ncalls"], fr, what)
     if c["t"] == "batch":
         what = {"BatchNeverFailsConnection": "teardown", "BatchReplyWhenAllAnswered": "no-flush" if not e["flushes"] else "wrong-flush",
                 "BatchReplyComplete": "incomplete", "BatchNoStrayResponses": "stray", "NoCrash": "panic",
                 "BatchIdsReusable": "id-not-reusable", "BatchInOrder": "out-of-order"}.get(clause, clause)
+        if clause == "BatchIdsReusable" and c.get("reuse") == "received":
+            what += "@reply-received-write-not-returned"
         return "batch[%s]:%s" % (",".join(c["members"]), what)
     if clause == "ExactlyOneSameId" and e["count"] == 0 and e["otherResp"] == 1:
         return "id-class=%s:altered" % c["idc"]
     return "shape=%s,%s,%s:%s:count=%d,code=%d" % (c["method"], c["idc"] if c["hasId"] else "noid", c["params"], clause, e["count"], e["code"])
 
 
-# clauses of the wire monitor that belong to C03 (in-order dispatch); everything else is C02
+# attribution of the clauses of the wire monitor: in-order dispatch is C03, completion of the SDK's own calls is C01,
+# everything else is C02
 ORDER_CLAUSES = {"BatchInOrder"}
+CALL_CLAUSES = {"CompletesAnyFraming", "OwnResponseAnyFraming"}
 
 
-def run_wire(v, tier, seed, replay_case=None, only_order=False):
-    """only_order: run the batch cases only and report the in-order clause (C03); otherwise everything but that clause (C02)."""
+def part_of(clause):
+    return "C03" if clause in ORDER_CLAUSES else "C01" if clause in CALL_CLAUSES else "C02"
+
+
+def has_item(c, item):
+    return any(item in f["items"] for f in c["frames"])
+
+
+def pick_framings(rows, part, tier, seed):
+    """The framing cases a part runs.  C01: every framing (thorough); quick: every framing for <= 2 calls, every
+    framing of 3 bare responses, and a seeded sample of the 3-call framings with a notification / a call mixed in.
+    C02: the framings that contain a call to the SDK side (the space was enumerated for fewer calls, see frame_calls)."""
+    if part == "C02":
+        return [c for c in rows if has_item(c, "q")], True
+    if tier != "quick":
+        return rows, True
+    keep = [c for c in rows if c["ncalls"] <= 2 or not (has_item(c, "q") or has_item(c, "n"))]
+    rest = [c for c in rows if not (c["ncalls"] <= 2 or not (has_item(c, "q") or has_item(c, "n")))]
+    rnd = random.Random(seed)
+    return keep + rnd.sample(rest, min(len(rest), 1200)), False
+
+
+def frame_calls(part, tier):
+    return {"C01": 3, "C02": 1 if tier == "quick" else 2, "C03": 0}[part]
+
+
+def run_wire(v, tier, seed, replay_case=None, only_order=False, part=None):
+    """part C03 (= only_order): the batch cases only, reporting the in-order clause; part C01: the reply framings, reporting
+    the clauses on the SDK's own calls; part C02: shapes, batches, streamable HTTP and the framings that hold a call to the
+    SDK side, reporting every other clause."""
+    part = part or ("C03" if only_order else "C02")
+    if part not in ("C01", "C02", "C03"):
+        part = "C02"
+    only_order = part == "C03"
     out = vlib.outdir(v.pid)
     wd = vlib.scratch("tlc-")
-    cfg = "Wire_quick.cfg" if tier == "quick" else "Wire_thorough.cfg"
-    res = vlib.run_tlc("Wire", cfg, workdir=wd, workers=1, timeout=900)
+    base = "Wire_quick.cfg" if tier == "quick" else "Wire_thorough.cfg"
+    # the configuration of this part: the batch bound of the tier (none for C01), the framing bound of the part
+    cfgtxt = open(os.path.join(vlib.SPEC, base)).read()
+    maxbatch = 0 if part == "C01" else int(cfgtxt.split("MaxBatch =")[1].split()[0])
+    cfg = "Wire_%s_%s.cfg" % (part, tier)
+    res = vlib.run_tlc("Wire", cfg, workdir=wd, workers=1, timeout=900,
+                       extra_files={cfg: "CONSTANT MaxBatch = %d\nCONSTANT FrameCalls = %d\n" % (maxbatch, frame_calls(part, tier))})
     vlib.tlc_must_pass(res, "Wire")
     if not res.ok:
         raise vlib.MachineryError("Wire.tla evaluation failed: %s" % (res.violation or res.stdout[-1500:]))
     info = [p for p in res.printed if isinstance(p, dict) and "shapes" in p][0]
+    if info["shapeLeads"] or info["batchLeads"] or info["framingLeads"] or info["reuseLeads"]:
+        raise vlib.MachineryError("Wire.tla: the code-shaped design breaks a clause of the property: %s" % info)
     v.add_tlc("Wire(enumerate %s)" % cfg, res)
     v.cov["wire_cases"] = info
     cases = os.path.join(out, "wire_cases.ndjson")
+    sampled = False
     if replay_case is not None:
         vlib.write_ndjson(cases, [replay_case])
     else:
-        os.replace(os.path.join(wd, "cases.ndjson"), cases)
-    if replay_case is None and only_order:
-        vlib.write_ndjson(cases, [c for c in vlib.read_ndjson(cases) if c["t"] == "batch"])
-    elif replay_case is None:
-        # the streamable HTTP cases run in the same harness pass
-        with open(cases, "a") as fh:
-            fh.write(open(os.path.join(wd, "httpcases.ndjson")).read())
+        frows, complete = ([], True) if only_order else pick_framings(vlib.read_ndjson(os.path.join(wd, "framecases.ndjson")), part, tier, seed)
+        sampled = not complete
+        if part == "C01":
+            rows = frows
+        elif only_order:
+            # the timing of a later re-use of the ids does not bear on the order in which the members are handled
+            rows = [c for c in vlib.read_ndjson(os.path.join(wd, "cases.ndjson")) if c["t"] == "batch" and c["reuse"] == "returned"]
+        else:
+            # the streamable HTTP cases run in the same harness pass
+            rows = vlib.read_ndjson(os.path.join(wd, "cases.ndjson")) + vlib.read_ndjson(os.path.join(wd, "httpcases.ndjson")) + frows
+        vlib.write_ndjson(cases, rows)
+        if not only_order:
+            v.cov["wire_framings"] = {"enumerated": info["framings"], "run": len(frows),
+                                      "complete_for_calls_up_to": frame_calls(part, tier) if complete else 2}
     ncases = sum(1 for _ in open(cases))
     obs = os.path.join(out, "wire_obs.ndjson")
     rc, gout, wall = vlib.go_test("mcp", "^TestVerif_C02Wire$", ["mcp/c02_wire_test.go"],
@@ -58,19 +120,38 @@ def run_wire(v, tier, seed, replay_case=None, only_order=False):
         raise vlib.MachineryError("wire harness ran %d of %d cases" % (len(rows), ncases))
     fails, mres = vlib.run_monitor("WireMon", "WireMon.cfg", obs)
     v.add_tlc("WireMon", mres)
+    nper = {}
     for f in fails:
         e = rows[f["line"] - 1]
-        if (f["monfail"] in ORDER_CLAUSES) != only_order and f["monfail"] != "NoCrash":
+        if f["monfail"] == "drift" and part != "C03":
+            pass
+        elif part_of(f["monfail"]) != part and f["monfail"] != "NoCrash":
             v.cov.setdefault("wire_other_property_clauses_failed", {})
             v.cov["wire_other_property_clauses_failed"][f["monfail"]] = v.cov["wire_other_property_clauses_failed"].get(f["monfail"], 0) + 1
             continue
         if f["monfail"] == "drift":
-            v.drift.append("wire outcome differs from WireDefs!Expected: %s -> %s" % (json.dumps(e["c"]), json.dumps({k: e[k] for k in ("count", "otherResp", "code", "alive", "flushes", "singles")})))
+            keys = ("outcome", "doneAfter", "notifs", "qAnswers", "qOther", "alive") if e["c"]["t"] == "framing" else ("count", "otherResp", "code", "alive", "flushes", "singles")
+            v.drift.append("wire outcome differs from WireDefs!Expected: %s -> %s" % (json.dumps(e["c"]), json.dumps({k: e[k] for k in keys})))
         else:
-            v.violation(sig_of(f["monfail"], e), "wire clause %s fails on the real server: sent %s" % (f["monfail"], e.get("sent", "")[:200]),
+            # one broken mechanism fails hundreds of enumerated cases: the first 30 per clause become violations
+            # (known findings are always matched), the rest is counted
+            sig = sig_of(f["monfail"], e)
+            if sig not in v.known:
+                nper[f["monfail"]] = nper.get(f["monfail"], 0) + 1
+                if nper[f["monfail"]] > 30:
+                    v.cov["wire_further_failing_cases"] = v.cov.get("wire_further_failing_cases", 0) + 1
+                    continue
+            v.violation(sig, "wire clause %s fails on the real %s: sent %s %s" % (f["monfail"], (e["c"].get("side") or "server") + " session", e.get("sent", "")[:200].replace("\n", " // "), e.get("detail", "")[:200]),
                         {"wire_case": e["c"], "obs": e})
     v.cov["wire_cases_run"] = len(rows)
-    v.cov["wire_exhaustive"] = replay_case is None
+    v.cov["wire_exhaustive"] = replay_case is None and not sampled
+    # the window "reply received, Write not returned" must really have been pinned by the harness
+    window = [r for r in rows if r["c"]["t"] == "batch" and r["c"].get("reuse") == "received"]
+    if window:
+        v.cov["wire_reuse_inside_write_window"] = sum(1 for r in window if r.get("reuseHeld"))
+        if not v.cov["wire_reuse_inside_write_window"]:
+            raise vlib.MachineryError("wire harness: no batch reply was held inside Write (%d cases ask for it)" % len(window))
     for r in rows[:: max(1, len(rows) // 3)][:3]:
-        v.sample({"wire_case": r["c"], "count": r["count"], "code": r["code"], "flushes": r["flushes"]})
+        v.sample({"wire_case": r["c"], "outcome": r["outcome"], "doneAfter": r["doneAfter"]} if r["c"]["t"] == "framing" else
+                 {"wire_case": r["c"], "count": r["count"], "code": r["code"], "flushes": r["flushes"]})
     return rows
